@@ -241,6 +241,7 @@ func ruleErrorStatus(c *Ctx) {
 			}
 			return nil
 		}
+		sp.InlineHelpers = true
 		tr := runTrace(p, fn, sp)
 		ok := len(tr.Paths) > 0
 		for _, path := range tr.Paths {
@@ -433,6 +434,7 @@ func ruleProtectedHeaders(c *Ctx) {
 			}
 			return nil
 		}
+		sp.InlineHelpers = true
 		tr := runTrace(p, fn, sp)
 		for _, path := range tr.Paths {
 			if !hasKind(path, "iter") {
